@@ -11,7 +11,7 @@ RULE = ("cases: (a) size arithmetic: one (file size, k, N, max segment size) tup
         "get_all_encoding_parameters / Encoder / CRS codecs / DownloadNode._calculate_sizes / WriteBucketProxy and the "
         "model; (b) one read(offset,size) through the real DownloadNode.read + Segmentation over a stub segment source; "
         "(c) one DecryptingConsumer run; (d) one grid operation = upload, or one download/read of an uploaded file with "
-        "a (schedule seed, surviving share subset, offset, size); plus empty and literal-sized files (0,1,2,15,16,17,54,55 bytes, and 56) uploaded and read back whole and by ranges, with and without servers.  Sizes are centred on multiples of k, of the segment "
+        "a (schedule seed, surviving share subset, offset, size), or a read from honest servers that answer the share-location query only after the OVERDUE timeout; plus empty and literal-sized files (0,1,2,15,16,17,54,55 bytes, and 56) uploaded and read back whole and by ranges, with and without servers.  Sizes are centred on multiples of k, of the segment "
         "size, of 16, on 56 and on powers of two.  distinct = distinct input tuples; all are non-trivial except reads "
         "clipped to zero bytes.")
 META = {
@@ -527,6 +527,10 @@ def parse_share(raw):
     return payload, ver, fields, ulen
 
 
+def slow_plan(servers):
+    return [{"server": sv, "method": "get_buckets", "count": None, "action": "delay", "until": "timers"} for sv in servers]
+
+
 def make_data(size, i):
     import random
     return random.Random(size * 1000003 + i).randbytes(size)
@@ -659,6 +663,29 @@ def grid(ctx):
                     ctx.oracle_fail("roundtrip-wrong-bytes", "read(%d,%r) of a %d-byte %d-of-%d file (segment size %d) returned %d bytes, expected %d; first difference at %d" % (
                         off, sz, size, k, n, segsize, len(o2.value), len(want), first), case=dcase,
                         expected=want[max(0, first - 8):first + 24].hex(), observed=o2.value[max(0, first - 8):first + 24].hex())
+            # honest but SLOW servers: their answer to the share-location query arrives only after
+            # the client's OVERDUE timers have fired (virtual time: no wall-clock cost)
+            for j in range(ctx.n(2, 3)):
+                rr = ctx.rng("grid-slow", i, j)
+                for sh, raw in saved.items():
+                    g.write_share(sh, raw)
+                nslow = rr.choice([ns, ns, max(1, ns - 1), rr.randrange(1, ns + 1)])
+                slow = sorted(rr.sample(range(ns), nslow))
+                dseed = rr.getrandbits(30)
+                g.sched.reseed(dseed)
+                g.set_faults(slow_plan(slow))
+                off = rr.choice([0, 0, rr.randrange(size)])
+                sz = None if off == 0 else rr.choice([None, 1, size - off])
+                dcase = dict(case, download_seed=dseed, slow_servers=slow, offset=off, read_size=sz)
+                want = data[off:] if sz is None else data[off:off + sz]
+                o2 = g.run(lambda: g.download_range(cap, off, sz), outcome=True)
+                g.set_faults(None)
+                ctx.case(("slow", i, j, dseed, tuple(slow), off, sz), kind="grid-slow-servers")
+                if o2.status != "ok" or o2.value != want:
+                    ctx.oracle_fail("slow-honest-servers-read-fails:" + str(o2.error if o2.status != "ok" else "wrong-bytes"),
+                                    "read(%d,%r) of an intact %d-byte %d-of-%d file on %d honest servers of which %r answer the share-location query "
+                                    "only after the OVERDUE timeout: %s %s" % (off, sz, size, k, n, ns, slow, o2.status, o2.error), case=dcase,
+                                    observed=str(o2.failure)[-600:] if o2.failure else o2.hung_info)
             if g.logged_errors:
                 ctx.count("grid-logged-errors", len(g.logged_errors))
     bad = ctx.coq_check(IMPORTS, terms, preamble=PREAMBLE, tag="c01grid")
@@ -789,6 +816,9 @@ def replay(ctx, record):
                     if sh.shnum not in case["keep"]:
                         g.delete_share(sh)
                 g.sched.reseed(case["download_seed"])
+            if "slow_servers" in case:
+                g.sched.reseed(case["download_seed"])
+                g.set_faults(slow_plan(case["slow_servers"]))
             off, sz = case.get("offset", 0), case.get("read_size")
             o2 = g.run(lambda: g.download_range(cap, off, sz), outcome=True)
             want = data[off:] if sz is None else data[off:off + sz]
